@@ -128,6 +128,7 @@ def run(ctx):
         if st['backs'] != tuple((True, v) for _ in range(4)):
             raise MachineryError('dump: the model round trip is not the value for %r' % (t,))
         ok = check_case(ctx, t, v, nodes, names)
+        ctx.again(check_case, ctx, t, v, nodes, names)
         ctx.replayed += 1
         seen_types.add(md.type_class(t))
         zones |= md.ts_zones(t, v)
@@ -137,6 +138,7 @@ def run(ctx):
     need = {'comb3', 'comb4', 'comb5', 'comb6', 'pair', 'option', 'or', 'list', 'set', 'map', 'timestamp', 'address', 'key_hash', 'key', 'signature', 'chain_id', 'lambda'}
     if not pcs.get('done') or len({pcs.get(k) for k in ('render', 'rendered', 'done')}) != 1 or not need <= seen_types or zones != {'text', 'year0', 'year1-999', 'before-year0', 'year>=10000'}:
         raise MachineryError('vacuity: states per phase %s, type classes %s, timestamp zones %s' % (pcs, sorted(seen_types), sorted(zones)))
+    ctx.second_pass()
     ctx.exhaustive = True
 
 
